@@ -150,13 +150,8 @@ class RFBServer(Protocol):  # type: ignore[misc]
             pixel_fomat = PixelFormat.from_bytes(args)
             self.handle_setPixelFormat(pixel_fomat)
         elif ptype == MsgC2S.SET_ENCODING:
-            (nencodings,) = unpack("!xH", block)
-            nbytes = 4 * nencodings
-            encodings = unpack_from("!" + "I" * nencodings, self.buffer)
-            del self.buffer[:nbytes]
-            for encoding in encodings:
-                log.debug(f"Client announces {Encoding.lookup(encoding)!r}")
-            self.handle_setEncodings(encodings)
+            (self._nencodings,) = unpack("!xH", block)
+            self._handler = self._handle_setEncodings, 4 * self._nencodings
         elif ptype == MsgC2S.FRAMEBUFFER_UPDATE_REQUEST:
             inc, x, y, w, h = unpack("!BHHHH", block)
             self.handle_framebufferUpdate(x, y, w, h, inc)
@@ -178,6 +173,15 @@ class RFBServer(Protocol):  # type: ignore[misc]
         else:
             log.debug("Unhandled response %r", MsgC2S.lookup(ptype))
             raise ProtocolError(ptype)
+
+    def _handle_setEncodings(self) -> None:
+        nbytes = 4 * self._nencodings
+        encodings = unpack_from("!" + "I" * self._nencodings, self.buffer)
+        del self.buffer[:nbytes]
+        for encoding in encodings:
+            log.debug(f"Client announces {Encoding.lookup(encoding)!r}")
+        self.handle_setEncodings(encodings)
+        self._handler = self._handle_protocol, 1
 
     def _handle_qemuExtendedKeyEvent(self) -> None:
         down_flag, keysym, keycode = unpack_from("!HII", self.buffer)
